@@ -398,6 +398,20 @@ func (e *Exec) applyContract(s *State, ins ssa.Instruction, fc *FuncContract, si
 			}
 		}
 	}
+	if fc.Holds != "" {
+		obj, mon := e.holdsTarget(fc, s, vars, &sub)
+		key := mon.TypeName + "." + mon.MutexField
+		var alts []*Node
+		for _, h := range s.held {
+			if h.Key == key {
+				alts = append(alts, Eq(h.Obj, obj))
+			}
+		}
+		if e.quiet == 0 {
+			e.obls = append(e.obls, &Obligation{Name: fmt.Sprintf("%s/call:%s#%d/holds", e.funcKey, cname, ord), Kind: "monitor",
+				Pos: pos, Goal: Or(alts...), Hyp: s.pc, Func: e.funcKey, Text: "called with " + fc.Holds + " held", Props: unionProps(orProps(fc.Props, e.props)), Mode: e.mode, exec: e})
+		}
+	}
 	pre := s.clone()
 	for i, r := range fc.Requires {
 		g := sub.evalWith(e, r, s, s, vars)
@@ -494,7 +508,7 @@ func (e *Exec) havocTarget(s, pre *State, m string, vars map[string]specVar, fc 
 	switch {
 	case strings.HasPrefix(m, "H:") || strings.HasPrefix(m, "A:") || strings.HasPrefix(m, "G:") || strings.HasPrefix(m, "M:"):
 		sortS, ok := e.heapSorts[m]
-		if !ok && strings.HasPrefix(m, "M:") {
+		if !ok && (strings.HasPrefix(m, "M:") || (strings.HasPrefix(m, "A:") && e.sortForHeapName(m) == "")) {
 			// a whole map type: every heap of the family
 			e.havocFamily(s, m+".", "mod_")
 			return
@@ -827,6 +841,23 @@ func (e *Exec) box(s *State, v Value, t types.Type) *Node {
 		i = TS.Fresh("iface", "Iface") // interior pointers and other non-flattenable payloads: identity only
 		s.assume(Eq(App("dyn", "Int", i), IntLit(int64(e.v.typeTag(t)))))
 		s.assume(Not(Eq(i, ifaceNil())))
+		return i
+	}
+	if i.bound {
+		// under a quantifier: the facts cannot go to the path condition for this instance; state them
+		// once for every argument of this boxing function
+		var bvs []*Node
+		for k, l := range leavesOf(v) {
+			bvs = append(bvs, BoundVar(fmt.Sprintf("bx%d!q", k), l.Sort))
+		}
+		gi := App(i.Op, "Iface", bvs...)
+		var geqs []*Node
+		zipLeaves(e.unbox(gi, t), e.mode.build(t, func() func(li leafInfo) *Node {
+			k := 0
+			return func(li leafInfo) *Node { k++; return bvs[k-1] }
+		}()), func(a, b *Node) *Node { geqs = append(geqs, Eq(a, b)); return a })
+		body := And(append([]*Node{Eq(App("dyn", "Int", gi), IntLit(int64(e.v.typeTag(t)))), Not(Eq(gi, ifaceNil()))}, geqs...)...)
+		s.assume(Forall(bvs, body))
 		return i
 	}
 	s.assume(Eq(App("dyn", "Int", i), IntLit(int64(e.v.typeTag(t)))))
